@@ -447,7 +447,7 @@ static inline int myth_create_ex_body(myth_thread_t * id,
   size_t stk_size = stack_size - sizeof(void*) * 2;
   if (child_first){
     myth_make_context_empty(&new_thread->context, stk, stk_size);
-    MYTH_VERIF_EV2("MkCtx", VD(new_thread), 0);
+    MYTH_VERIF_EV3("MkCtx", VD(new_thread), 0, MYTH_VERIF_CTX_IN_STACK(&new_thread->context, stk));
 
 #if MYTH_CREATE_PROF_DETAIL
     t1 = myth_get_rdtsc();
@@ -475,7 +475,7 @@ static inline int myth_create_ex_body(myth_thread_t * id,
     //Create context
     myth_make_context_voidcall(&new_thread->context, myth_entry_point,
 			       stk, stk_size);
-    MYTH_VERIF_EV2("MkCtx", VD(new_thread), 1);
+    MYTH_VERIF_EV3("MkCtx", VD(new_thread), 1, MYTH_VERIF_CTX_IN_STACK(&new_thread->context, stk) && MYTH_VERIF_CTX_ENTRY(&new_thread->context) == (void*)myth_entry_point);
 
 #if MYTH_CREATE_PROF_DETAIL
     t1 = myth_get_rdtsc();
